@@ -59,7 +59,7 @@ claim("C04",
       "no branch depends on the length of the pending key (the empty key is legal); the comparator orders exhausted entries last, returns the "
       "key comparison unchanged and consults dupsort only for equal keys with (a.val,b.val); the three heap comparison sites keep a min-heap; "
       "the two writer-feeding loops add every yielded entry once and stop at the first refused add. Heap algorithm correctness and fold "
-      "multiplicity over all source families are not decided. Also decides (R9) that merge, dupsort and the heap comparison are each called, and forwarded, with the closure registered with them (pairs derived from the registering functions), and (R10) the heap discipline in the order domain: for every heap size up to 5 (6 thorough) and every ordering, heapify/push/pop/replace keep the elements and the parent<=child invariant and pop/replace/peek return a minimum; re-runs C02.R3 (C04.D.*).",
+      "multiplicity over all source families are not decided. Also decides (R9) that merge, dupsort and the heap comparison are each called, and forwarded, with the closure registered with them (pairs derived from the registering functions), and (R10) the heap discipline in the order domain: for every heap size up to 5 (6 thorough) and every ordering, heapify/push/pop/replace keep the elements and the parent<=child invariant and pop/replace/peek return a minimum; re-runs C02.R3 (C04.D.*). Also decides the container contract of libmy/vector.h (the macro all buffers, restart arrays, heap arrays and entry lists are generated from) with an allocation-aware interpreter: in 36 scenarios per family (1-byte, 8-byte integer and pointer elements) every operation keeps the representation invariant, preserves the elements, meets its post-condition and stays inside live allocations.",
       "Trusts loop bound 1 (2 in thorough) for the two nested loops, that user callbacks only write through their arguments, and the "
       "role recognition of heap operands by index expression ((pos-1)>>1, 2*pos+1, +1).")
 
@@ -108,7 +108,7 @@ claim("C18",
       "at every free of a record each owning field (one that anywhere receives an acquired value) was released or moved earlier on that path or never assigned; "
       "munmap uses the mapped length; the three listed indirections (queue released by the joined result thread, reference-counted shared fileset, writer's "
       "closed flag) are verified structurally. Leak freedom over all API histories (aliasing through containers, element-wise release loops) and the temp-file "
-      "namespace are not decided; teardown order versus the handler thread is decided in C13.R3. Also decides (R5) that a parameter through which callers demonstrably hand over an acquired object is stored, released or handed on on every normal path of the callee (unless established NULL).",
+      "namespace are not decided; teardown order versus the handler thread is decided in C13.R3. Also decides (R5) that a parameter through which callers demonstrably hand over an acquired object is stored, released or handed on on every normal path of the callee (unless established NULL). Also decides the container contract of libmy/vector.h (the macro all buffers, restart arrays, heap arrays and entry lists are generated from) with an allocation-aware interpreter: in 36 scenarios per family (1-byte, 8-byte integer and pointer elements) every operation keeps the representation invariant, preserves the elements, meets its post-condition and stays inside live allocations.",
       "Trusts T-own (which calls acquire/release/consume/borrow), inference of consuming parameters from 'parameter stored into an object', loop bound 1.")
 
 claim("C13",
@@ -157,7 +157,7 @@ claim("C09",
       "agrees with it; a framed block is varint64 length, 4-byte little-endian CRC32C, stored bytes, and the returned size is their sum; the checksum is taken over (data,len_data) of the "
       "same block after their last definition and nothing between compression and the file changes them; restart cadence and reset table; a block is cut iff estimate+15+len_key+len_val "
       ">= block_size; the index entry carries the offset the block started at and pending_offset starts at the descriptor's offset and grows by the bytes written; trailer layout as in C10; every increment applied to separator bytes is guarded against wrap-around and a value computed from a multi-byte read is written back whole (the index key cannot drop below the block's last key that way). "
-      "The bytes of real files (which need an independent decoder run on outputs) and the separator arithmetic are not decided. Also decides that every block record reaching the block-writing function has had its crc field stored on every path, inline or through the pool's work function (definite assignment); re-runs C16 and C17 (C09.D.*).",
+      "The bytes of real files (which need an independent decoder run on outputs) and the separator arithmetic are not decided. Also decides that every block record reaching the block-writing function has had its crc field stored on every path, inline or through the pool's work function (definite assignment); re-runs C16 and C17 (C09.D.*). Also decides the container contract of libmy/vector.h (the macro all buffers, restart arrays, heap arrays and entry lists are generated from) with an allocation-aware interpreter: in 36 scenarios per family (1-byte, 8-byte integer and pointer elements) every operation keeps the representation invariant, preserves the elements, meets its post-condition and stays inside live allocations.",
       "Trusts T-format (written from the LevelDB block format and mtbl's documentation), the varint/fixed codecs (decided separately by C16), loop bound 1.")
 
 claim("C11",
@@ -175,7 +175,7 @@ claim("C01",
       "block builder exactly once with the caller's key/value after any block cut and a refused add never does; a finished builder is reset before reuse, a cut block goes either to the pool "
       "once or is compressed then written once, finish runs flush < join < index block < one 512-byte trailer; an exhausted block makes next advance the index once, load the block it names "
       "and position at its first entry, failing only at the end of the index; mtbl_dump prints an entry iff not silent and both prefix tests (length and bytes) and both minimum lengths hold. "
-      "That prefix sharing, restart offsets and block cuts compose to the identity for every key sequence and configuration, and the compression libraries, are not decided. Also decides (R6) that the quantity block_builder_empty tests is emptied by reset and grows by a provably positive amount on every path of block_builder_add, so no non-empty block is skipped at flush; and re-runs the rules of C20 and C16 (labelled C01.D.*) because the round trip rests on them.",
+      "That prefix sharing, restart offsets and block cuts compose to the identity for every key sequence and configuration, and the compression libraries, are not decided. Also decides (R6) that the quantity block_builder_empty tests is emptied by reset and grows by a provably positive amount on every path of block_builder_add, so no non-empty block is skipped at flush; and re-runs the rules of C20 and C16 (labelled C01.D.*) because the round trip rests on them. Also decides the container contract of libmy/vector.h (the macro all buffers, restart arrays, heap arrays and entry lists are generated from) with an allocation-aware interpreter: in 36 scenarios per family (1-byte, 8-byte integer and pointer elements) every operation keeps the representation invariant, preserves the elements, meets its post-condition and stays inside live allocations.",
       "Trusts T-format, the varint codecs (decided separately by C16), loop bound 1, three-valued evaluation of the dump formula over the atoms each path constrains.")
 
 claim("C12",
@@ -193,5 +193,5 @@ claim("C06",
       "allocation size is what is accounted and a spill happens iff entry_bytes + vector bytes >= max_memory after accounting, the batch hand-over resets both; mkstemp in the chunk writer is the "
       "sorter's only file creation, its template starts with the configured directory followed by one file-name component, and the file is unlinked on every path; the whole batch is sorted by key "
       "first, neighbours are folded iff their keys are equal and otherwise written, no entry is freed twice; the final merger gets the sorter's merge function/closure and every chunk reader, after "
-      "the join. That chunking never changes the result and qsort/merge behaviour on values are not decided. Also decides (R6) that the buffered-bytes total and the memory limit are 64 bits wide and never narrowed, (R7) that the sorter's merge function is called and forwarded with its own closure; re-runs C02.R3 (C06.D.*).",
+      "the join. That chunking never changes the result and qsort/merge behaviour on values are not decided. Also decides (R6) that the buffered-bytes total and the memory limit are 64 bits wide and never narrowed, (R7) that the sorter's merge function is called and forwarded with its own closure; re-runs C02.R3 (C06.D.*). Also decides the container contract of libmy/vector.h (the macro all buffers, restart arrays, heap arrays and entry lists are generated from) with an allocation-aware interpreter: in 36 scenarios per family (1-byte, 8-byte integer and pointer elements) every operation keeps the representation invariant, preserves the elements, meets its post-condition and stays inside live allocations.",
       "Trusts T-cmp rows 16-18, mkstemp/unlink semantics, loop bound 1.")
